@@ -20,6 +20,10 @@ for d in sorted(glob.glob("/verif/seeded/*/")):
         re_s = "stale (lines rewritten by a later fix)"
     elif rc:
         re_s = ", ".join(k for k, v in rc.get("checks", {}).items() if v == 1) or "NOT caught"
+        if re_s == "NOT caught" and m.get("not_caught_reason"):
+            re_s = "not reported: " + re.sub(r"\s+", " ", m["not_caught_reason"].replace("|", "/"))[:260]
+        elif m.get("stale"):
+            re_s = "stale"
     else:
         re_s = ""
     rows.append("| `%s` | %s | %s | %s | %s |" % (name, summ, needs, caught, re_s))
